@@ -150,6 +150,11 @@ STOP = [
     '<tokio::io::util::read_exact::ReadExact<',
     'tokio::io::AsyncReadExt::read_exact',
     'async_std::io::ReadExt::read_exact',
+    '<* as async_std::io::ReadExt>::read_exact*',
+    '<* as tokio::io::AsyncReadExt>::read_exact*',
+    '<* as tokio::io::AsyncReadExt>::read_*',
+    'tokio::io::util::read_int::*',
+    '<tokio::io::util::read_int::*',
     'async_std::io::read::read_exact::',
     '<async_std::io::read::read_exact::',
     'futures_util::',
@@ -451,6 +456,20 @@ def call_model(ex, fn, args, dest_ty):
             return f(ex, fn, args)
     if name.endswith('DateTime as std::convert::TryFrom<u32>>::try_from'):
         return _datetime_try_from(ex, fn, args)
+    if ' as async_std::io::ReadExt>::read_exact' in name:
+        return _astd_read_exact(ex, fn, args)
+    if ' as tokio::io::AsyncReadExt>::read_exact' in name:
+        return _tokio_read_exact(ex, fn, args)
+    mm = re.search(r' as tokio::io::AsyncReadExt>::read_([uif])(\d+)(_le)?$', name)
+    if mm:
+        nb = int(mm.group(2)) // 8
+        rx = RExV(args[0], SliceRef([BV(0, 8) for _ in range(nb)], 0, nb), 'tokio-int')
+        rx.little = bool(mm.group(3)) or nb == 1
+        return rx
+    if name.startswith('<tokio::io::util::read_int::Read') and name.endswith('as std::future::Future>::poll'):
+        return _rex_poll(ex, fn, args)
+    if name.startswith('<tokio::io::util::read_int::Read') and name.endswith('as std::future::IntoFuture>::into_future'):
+        return args[0]
     raise Unsupported('no model for %s  [%s]' % (name, n))
 
 
@@ -1118,6 +1137,18 @@ def _io_error_kind(ex, fn, args):
 
 
 def _io_error_new(ex, fn, args):
+    # identity conversion From<io::Error> for io::Error (the `?` operator)
+    for a in args:
+        if isinstance(a, Opaque) and a.what == 'io::Error':
+            return a
+    # io::Error::new(kind, ..) / From<ErrorKind>: keep the kind when it is concrete
+    try:
+        sig = fn.get('sig') or {}
+        for a, t in zip(args, sig.get('args', [])):
+            if isinstance(a, EnumV) and ex.p.is_enum(t) and ex.p.adt(t)['name'].endswith('ErrorKind'):
+                return io_error(ex.p.adt(t)['variants'][a.d]['name'])
+    except Exception:
+        pass
     return io_error('Other')
 
 
@@ -1346,3 +1377,72 @@ def _ip_new(ex, fn, args):
     return Agg([z3.Concat(args[0], args[1], args[2], args[3])])
 
 
+
+
+# ---------------------------------------------------------------------------------------- async read_exact futures (C06)
+class RExV:
+    """tokio ReadExact / async-std ReadExactFuture: reader + destination buffer + number of bytes filled so far"""
+
+    def __init__(self, reader, buf, flavour):
+        self.reader = reader
+        self.buf = buf
+        self.filled = 0
+        self.flavour = flavour
+
+
+def _tokio_read_exact(ex, fn, args):
+    return RExV(args[0], as_slice(ex, args[1]), 'tokio')
+
+
+def _astd_read_exact(ex, fn, args):
+    return RExV(args[0], as_slice(ex, args[1]), 'astd')
+
+
+def _rex_poll(ex, fn, args):
+    """documented contract of read_exact futures: poll the reader until the buffer is full; a ready read of zero bytes
+    is UnexpectedEof; Pending leaves the partial fill in place. The transport script (which polls return Pending, how
+    many bytes each ready poll delivers) comes from the path environment."""
+    rx = args[0]
+    k = 0
+    while not isinstance(rx, RExV) and k < 6:
+        if isinstance(rx, Ref):
+            rx = ex.read(rx.cell, rx.path)
+        elif isinstance(rx, Agg) and rx.f:
+            rx = rx.f[0]
+        else:
+            break
+        k += 1
+    if not isinstance(rx, RExV):
+        raise Unsupported('poll of %r' % (rx,))
+    env = ex.path.env
+    data = env['data']
+    while True:
+        need = rx.buf.len - rx.filled
+        if need == 0:
+            if rx.flavour == 'tokio-int':
+                bs = rx.buf.items()
+                if not rx.little:
+                    bs = list(reversed(bs))
+                return EnumV(0, [ok(z3.Concat(*reversed(bs)) if len(bs) > 1 else bs[0])])
+            return EnumV(0, [ok(B64(rx.buf.len) if rx.flavour == 'tokio' else UNIT)])
+        act = env['sched'].pop(0) if env['sched'] else 'ALL'
+        env['polls'] = env.get('polls', 0) + 1
+        if act == 'P':
+            return EnumV(1, [])
+        avail = len(data) - env['pos']
+        if avail == 0:
+            return EnumV(0, [err(io_error('UnexpectedEof'))])
+        n = min(need, avail, 10 ** 9 if act == 'ALL' else act)
+        for i in range(n):
+            rx.buf.lst[rx.buf.start + rx.filled + i] = data[env['pos'] + i]
+        rx.filled += n
+        env['pos'] += n
+
+
+PREFIX_MODELS.append(('tokio::io::util::read_exact::read_exact', _tokio_read_exact))
+PREFIX_MODELS.append(('<tokio::io::util::read_exact::ReadExact as std::future::IntoFuture>::into_future', lambda ex, fn, args: args[0]))
+PREFIX_MODELS.append(('<async_std::io::read::read_exact::ReadExactFuture as std::future::IntoFuture>::into_future', lambda ex, fn, args: args[0]))
+PREFIX_MODELS.append(('<tokio::io::util::read_exact::ReadExact as std::future::Future>::poll', _rex_poll))
+PREFIX_MODELS.append(('async_std::io::read::read_exact::', _astd_read_exact))
+PREFIX_MODELS.append(('async_std::io::ReadExt::read_exact', _astd_read_exact))
+PREFIX_MODELS.append(('<async_std::io::read::read_exact::ReadExactFuture as std::future::Future>::poll', _rex_poll))
